@@ -811,6 +811,7 @@ type CEnv struct {
 	qdepth int
 	visitedOf func(m MapV, st *State) (*Term, bool)
 	loopEntry *State // in a loop's own clauses: the state in which the loop was entered (loopentry(e))
+	iterEntry *State // at the end of an iteration: the state at its start (iterentry(e))
 }
 
 func (e *CEnv) fail(format string, a ...interface{}) {
@@ -1425,6 +1426,18 @@ func (e *CEnv) evalCall(n *ast.CallExpr) (Value, types.Type) {
 			}
 			ne := *e
 			ne.st = e.loopEntry
+			ne.vars = map[string]cvar{}
+			for k, v := range e.vars {
+				ne.vars[k] = v
+			}
+			return ne.eval(n.Args[0])
+		case "iterentry":
+			// iterentry(e): the value of e at the start of the iteration that is ending
+			if e.iterEntry == nil {
+				e.fail("iterentry() is only available in `at loop N end` assertions and preserved invariants")
+			}
+			ne := *e
+			ne.st = e.iterEntry
 			ne.vars = map[string]cvar{}
 			for k, v := range e.vars {
 				ne.vars[k] = v
